@@ -230,7 +230,9 @@ pub fn run(ctx: &Ctx, st: &mut Stats) -> Vec<Violation> {
             let (depth, u8s) = [(8u8, true), (10, false), (16, false)][(j % 3) as usize];
             let n = w * h;
             let maxc = (1u32 << depth) - 1;
-            for full in [false, true, false, true] {
+            // the starting range alternates with the depth (a process-wide cache keeps what came first)
+            let order = if j % 2 == 0 { [true, false, true, false] } else { [false, true, false, true] };
+            for full in order {
                 let c = cfg(STD_MC[(j % 7) as usize], TC::BT1886, CP::BT709, depth, full, (0, 0));
                 // the ramp repeated over the frame, black and white codes included
                 let k = 1u32 << (depth - 8);
